@@ -208,11 +208,11 @@ fn ref_file(max_sectors_half: u8) -> impl Strategy<Value = RefFile> {
 }
 
 fn ref_spec() -> impl Strategy<Value = RefSpec> {
-    (any::<bool>(), 0u16..=3, 2u8..=8, prop_oneof![3 => Just(0u8), 1 => 1u8..5], any::<bool>())
+    (any::<bool>(), prop_oneof![12 => 0u16..=3, 1 => 4u16..=8], 2u8..=8, prop_oneof![3 => Just(0u8), 1 => 1u8..5], any::<bool>())
         .prop_flat_map(|(v2, shift, hash_log2, lead_units, reverse)| {
-            let mh: u8 = if shift == 0 { 12 } else { 6 };
+            let mh: u8 = if shift == 0 { 12 } else if shift <= 3 { 6 } else { 4 };
             (
-                proptest::collection::vec(ref_file(mh), 0..10),
+                proptest::collection::vec(ref_file(mh), 0..if shift <= 3 { 10 } else { 4 }),
                 proptest::collection::vec("[a-z]{1,6}\\.gho", 0..6),
             )
                 .prop_map(move |(mut files, ghosts)| {
@@ -361,6 +361,34 @@ fn grid_b() -> Vec<RefSpec> {
                 v.push(RefSpec { v2, shift, hash_log2: 4, lead_units: lead, ghosts: vec!["gone.gho".into(), "gone2.gho".into()], reverse: lead > 0, files });
             }
         }
+    }
+    // large sectors (32 KiB, 128 KiB) with content that standard zlib / bzip2 shrink to a few dozen bytes:
+    // what another implementation writes for padded or flat game data; ratios of several thousand to one
+    for (v2, shift) in [(false, 6u16), (true, 8), (false, 8)] {
+        let ss = 512usize << shift;
+        let mut files = vec![];
+        let mut k = 0;
+        for method in [0x02u8, 0x10] {
+            for (enc, fix) in [(false, false), (true, false), (true, true)] {
+                for class in [ContentClass::Constant, ContentClass::Period, ContentClass::Sparse, ContentClass::LowEntropy, ContentClass::Text] {
+                    let (single, len) = [(false, ss), (false, ss * 2 + 5), (true, ss + ss / 2), (false, ss - 1)][k % 4];
+                    files.push(RefFile {
+                        name: format!("Big\\s{shift}_{k}.bin"),
+                        data_class: class,
+                        len,
+                        seed: 40 + k as u32,
+                        method,
+                        single_unit: single,
+                        encrypted: enc,
+                        fix_key: fix,
+                        gap: 0,
+                        crc: k % 3 == 1,
+                    });
+                    k += 1;
+                }
+            }
+        }
+        v.push(RefSpec { v2, shift, hash_log2: 6, lead_units: 0, ghosts: vec!["gone.gho".into()], reverse: false, files });
     }
     v
 }
